@@ -36,9 +36,11 @@ Definition trace_step (e : event) (a : astate) : option astate :=
       Some {| a_phase := match a_phase a with PInit => PInit | _ => PHelo end; a_txn := None; a_stored := 0; a_auth := a_auth a; a_esmtp := a_esmtp a |}
   | Note NHelo => Some {| a_phase := PHelo; a_txn := None; a_stored := 0; a_auth := a_auth a; a_esmtp := a_esmtp a |}
   | Note (NMail f) =>
-      (* C08: MAIL only after HELO/EHLO and outside a transaction *)
+      (* C08: MAIL only after HELO/EHLO and outside a transaction;
+         C01/C02: on the submission port only from a client that is entitled to relay (relay list or an earlier successful AUTH) *)
       match a_phase a with
-      | PHelo => Some {| a_phase := PMail; a_txn := Some (f, []); a_stored := 0; a_auth := a_auth a; a_esmtp := a_esmtp a |}
+      | PHelo => if o_submission o && negb (Z.ltb 0 (o_relay o)) && negb (a_auth a) then None
+                 else Some {| a_phase := PMail; a_txn := Some (f, []); a_stored := 0; a_auth := a_auth a; a_esmtp := a_esmtp a |}
       | _ => None
       end
   | Note (NRcpt addr cls) =>
@@ -154,8 +156,56 @@ Definition data_verdict_ok (maxb : N) (lines : list bytes) (code : N) : bool :=
   else if N.eqb code 552 then N.ltb maxb (szof lines)
   else true.
 
+(** ---- submission mode (TCPLOCALPORT = 587): the header fields the server may add ---- *)
+Definition s_hdr_date : bytes := [68; 97; 116; 101; 58]%N.                                  (* "Date:" *)
+Definition s_hdr_from : bytes := [70; 114; 111; 109; 58]%N.                                 (* "From:" *)
+Definition s_hdr_msgid : bytes := [77; 101; 115; 115; 97; 103; 101; 45; 73; 100; 58]%N.      (* "Message-Id:" *)
+Definition submission_port : bytes := SUBM_PORT.                                             (* TCPLOCALPORT that switches submission mode on *)
+Definition dot_line (l : bytes) : bool := N.eqb (nth 0 l 0%N) DOT.
+(** a field of that name is present: a header line that, as transmitted, does not start with a dot begins with the name (any case) *)
+Definition field_line (name l : bytes) : bool := negb (dot_line l) && strncaseeq name l.
+Definition field_present (name : bytes) (hdr : list bytes) : bool := existsb (field_line name) hdr.
+
+(** the parameters of the additions: submission mode on/off, the date of the Received: line, the sender of the accepted
+    MAIL FROM, the time stamp and the host name of the Message-Id *)
+Record subm_par := { sp_on : bool; sp_date : bytes; sp_from : bytes; sp_stamp : bytes; sp_host : bytes }.
+
+(** exactly the missing ones of Date, From, Message-Id, in this order, each once *)
+Definition subm_fields (p : subm_par) (hdr : list bytes) : bytes :=
+  (if field_present s_hdr_date hdr then [] else SUBM_DATE_PFX ++ sp_date p ++ [LF])
+  ++ (if field_present s_hdr_from hdr then [] else SUBM_FROM_PFX ++ sp_from p ++ SUBM_FROM_END)
+  ++ (if field_present s_hdr_msgid hdr then [] else SUBM_MSGID_PFX ++ sp_stamp p ++ SUBM_MSGID_AT ++ sp_host p ++ SUBM_MSGID_END).
+
+Definition body_part (ls : list bytes) : list bytes := skipn (length (hdr_part ls)) ls.
+
+(** what follows the trace header in the queued message: the header lines, in submission mode the added fields, then the
+    rest (the empty line and the body) *)
+Definition queued (p : subm_par) (lines : list bytes) : bytes :=
+  stored (hdr_part lines) ++ (if sp_on p then subm_fields p (hdr_part lines) else []) ++ stored (body_part lines).
+
+Definition par_of (dc : dcfg) : subm_par :=
+  {| sp_on := d_subm dc; sp_date := d_date dc; sp_from := d_from dc; sp_stamp := d_stamp dc; sp_host := d_idhost dc |}.
+
+(** THE PROPERTY AS STATED judges "the client omitted the field" on the message the client submitted, i.e. on the lines as
+    qmail-queue receives them (leading dot removed): [field_stored].  The code judges it on the lines as transmitted and
+    skips every line that starts with a dot ([field_present]).  The two differ exactly for a header line that hides one of
+    the three names behind a needless leading dot (".Date: x" is stored as "Date: x"): [hidden_field]. *)
+Definition field_stored (name : bytes) (hdr : list bytes) : bool := existsb (fun l => strncaseeq name (unstuff l)) hdr.
+Definition hidden_line (l : bytes) : bool :=
+  dot_line l && (strncaseeq s_hdr_date (unstuff l) || strncaseeq s_hdr_from (unstuff l) || strncaseeq s_hdr_msgid (unstuff l)).
+Definition hidden_field (hdr : list bytes) : bool := existsb hidden_line hdr.
+
+Definition subm_fields_full (p : subm_par) (hdr : list bytes) : bytes :=
+  (if field_stored s_hdr_date hdr then [] else SUBM_DATE_PFX ++ sp_date p ++ [LF])
+  ++ (if field_stored s_hdr_from hdr then [] else SUBM_FROM_PFX ++ sp_from p ++ SUBM_FROM_END)
+  ++ (if field_stored s_hdr_msgid hdr then [] else SUBM_MSGID_PFX ++ sp_stamp p ++ SUBM_MSGID_AT ++ sp_host p ++ SUBM_MSGID_END).
+Definition queued_full (p : subm_par) (lines : list bytes) : bytes :=
+  stored (hdr_part lines) ++ (if sp_on p then subm_fields_full p (hdr_part lines) else []) ++ stored (body_part lines).
+
 (** checker for the message of one hand-off, applied to the implementation: it ends with exactly the data lines the client
-    sent (CRLF -> LF, one leading dot removed); what stands before them is the trace header.  Sound: Proofs/DataProofs.v *)
-Definition handoff_msg_ok (lines : list bytes) (msg : bytes) : bool :=
-  Nat.leb (length (stored lines)) (length msg)
-  && bytes_eqb (skipn (length msg - length (stored lines)) msg) (stored lines).
+    sent (CRLF -> LF, one leading dot removed) - in submission mode with exactly the ones of the three fields that the
+    submitted message lacks inserted at the end of the header block; what stands before that is the trace header.
+    Sound for the model outside the class [hidden_field]: Proofs/DataProofs.v *)
+Definition handoff_msg_ok (p : subm_par) (lines : list bytes) (msg : bytes) : bool :=
+  Nat.leb (length (queued_full p lines)) (length msg)
+  && bytes_eqb (skipn (length msg - length (queued_full p lines)) msg) (queued_full p lines).
